@@ -19,6 +19,7 @@
 -/
 import NV.Lemmas.Cache
 import NV.Gen.Cache
+import NV.Gen.Dispatch
 namespace NV.C06
 open NV NV.Cache
 
@@ -429,5 +430,20 @@ example :
                                   .lateStore .dns53 [] qfoo 100 [7, 7] "" .absent]
     (stepDns53 constT {} s qfoo .dialErr).2.reply = [7, 7] ∧
     (stepDoh constT {} s (profileUrl [97]) qfoo .transportErr 0).2.reply = [1, 2, 3] := by decide
+
+/-- **regenerated (dispatch)**: `(*DNS).Resolve` produces no answer before the endpoint manager has chosen the transport — no
+call that touches a resolver or a cache stands outside the type switch of the closure it hands to `Manager.Do` — and in that
+switch a DoH endpoint is resolved by `r.DOH.resolve` only, a plain-DNS endpoint by `r.DNS53.resolve` only, any other case by
+nothing.  So the `D` / `N` operations of the cache model (whose keys are disjoint across the transports, `doh_dns53_keys_disjoint`)
+are all there is between a query and the cache. -/
+theorem gen_resolve_dispatch :
+    Gen.Dispatch.doCalls = 1 ∧ Gen.Dispatch.outside = [] ∧
+    (Gen.Dispatch.cases.all fun c =>
+      if c.1 = "*endpoint.DOHEndpoint" then c.2 == ["r.DOH.resolve"]
+      else if c.1 = "*endpoint.DNSEndpoint" then c.2 == ["r.DNS53.resolve"]
+      else c.2 == []) = true ∧
+    (Gen.Dispatch.cases.any fun c => c.1 == "*endpoint.DOHEndpoint") = true ∧
+    (Gen.Dispatch.cases.any fun c => c.1 == "*endpoint.DNSEndpoint") = true := by
+  decide
 
 end NV.C06
